@@ -23,7 +23,7 @@ def UB_default_value(default: str, qtype: str) -> bool:
 
 @contract("default_is_dynamic")
 def _(element_default: str, element_type: str) -> bool:
-    properties("C10")
+    properties("C10", "C03")
     trusted("token-level classification of the default text (regex lexer): bounded native search only; callers refer to the "
             "value through the uninterpreted symbol IsDynamic (contracts/survey_element.py)")
     exhaustive_only()
